@@ -51,7 +51,7 @@ type cliModel struct {
 	flagOf                          map[string]string // global var -> "set/flagname"
 	flagDirect                      map[string]bool   // the global holds the value itself (XxxVar form), not a pointer to it
 	charGen, wlGen, classFlags      *ssa.Function
-	sepFor, capFor                  *ssa.Function
+	sepFor, capFor, ccFor           *ssa.Function
 	builtinList, fileList, usage    *ssa.Function
 }
 
@@ -169,6 +169,14 @@ func resolveCLI(p *core.Program, inits map[string]*core.InitVal) *cliModel {
 				if c, ok := in.(*ssa.Call); ok {
 					if f := core.StaticCallee(c); f != nil && f.Pkg == p.Cmd && f.Signature.Params().Len() == 0 && f.Signature.Results().Len() == 0 {
 						m.usage = f
+						// `exitWithUsage()`: the printer is the niladic function it calls before exiting
+						if _, never := helperExit(f, 0); never {
+							for _, c2 := range core.Calls(f) {
+								if g := core.StaticCallee(c2); g != nil && g.Pkg == p.Cmd && g.Signature.Params().Len() == 0 && g.Signature.Results().Len() == 0 {
+									m.usage = g
+								}
+							}
+						}
 					}
 				}
 			}
@@ -191,8 +199,19 @@ func runC17(p *core.Program, r *core.Report) {
 	// ---------- R17.1 tables
 	wantCC := map[string]string{"uppercase": "Uppers", "lowercase": "Lowers", "digits": "Digits", "symbols": "Symbols", "ambiguous": "Ambiguous"}
 	mapKeys := map[string][]string{}
-	if iv := inits[cli.ccMap]; iv == nil || iv.Map == nil {
-		r.Unrecognised("R17.1", "init", "ccMap", "", "map literal not found")
+	var ccTable *table
+	if iv := inits[cli.ccMap]; iv != nil && iv.Map != nil {
+		ccTable = &table{iv.Map, iv.Store.Pos()}
+	} else if pcc := cli.classFlags; pcc != nil {
+		// the class table written as a switch: the two-result lookup function parseCharacterClasses calls
+		for _, c := range core.Calls(pcc) {
+			if t := lookupTable2(core.StaticCallee(c)); t != nil {
+				ccTable = t
+			}
+		}
+	}
+	if iv := ccTable; iv == nil {
+		r.Unrecognised("R17.1", "init", "ccMap", "", "neither a map literal nor a switch on the class word found")
 	} else {
 		got := map[string]uint64{}
 		for _, e := range iv.Map {
@@ -204,9 +223,9 @@ func runC17(p *core.Program, r *core.Report) {
 		for w, cn := range wantCC {
 			fv, _ := constU(p, cn)
 			v, ok := got[w]
-			r.Check(ok && v == fv, "R17.1", "init", "ccMap[\""+w+"\"] == spg."+cn, p.Pos(iv.Store.Pos()), fmt.Sprintf("got %d want %d", v, fv))
+			r.Check(ok && v == fv, "R17.1", "init", "ccMap[\""+w+"\"] == spg."+cn, p.Pos(iv.Pos), fmt.Sprintf("got %d want %d", v, fv))
 		}
-		r.Check(len(got) == len(wantCC), "R17.1", "init", "ccMap has exactly the five documented words", p.Pos(iv.Store.Pos()), fmt.Sprint(len(got)))
+		r.Check(len(got) == len(wantCC), "R17.1", "init", "ccMap has exactly the five documented words", p.Pos(iv.Pos), fmt.Sprint(len(got)))
 	}
 	if iv := lookupTable(p, inits, cli.capFor, cli.capMap); iv == nil {
 		r.Unrecognised("R17.1", "init", "capitalizeMap", "", "neither a map literal nor a switch on the flag value found")
@@ -564,8 +583,18 @@ func checkFlagDefaults(p *core.Program, r *core.Report, inits map[string]*core.I
 	// default case exits with usage
 	okExit := false
 	for _, c := range core.Calls(pw) {
+		isExit2 := false
 		if core.CallName(c) == "os.Exit" {
 			if k, isC := core.ConstInt(c.Common().Args[0]); isC && k == 2 {
+				isExit2 = true
+			}
+		} else if f := core.StaticCallee(c); f != nil && f.Blocks != nil && f.Pkg == p.Cmd {
+			if k, never := helperExit(f, 0); never && k == 2 {
+				isExit2 = true
+			}
+		}
+		if isExit2 {
+			{
 				neither := 0
 				for _, gd := range core.Guards(c.Block()) {
 					if rel, ok := core.AsRel(gd); ok && rel.Op == token.NEQ && rel.X == ssa.Value(pw.Params[0]) {
@@ -836,6 +865,11 @@ func checkWiring(p *core.Program, r *core.Report) {
 					}
 					lk, isLk := lv.(*ssa.Lookup)
 					if !isLk {
+						// a lookup function word -> (flag, known) written as a switch
+						if cc, isCall := lv.(*ssa.Call); isCall && len(cc.Call.Args) == 1 && lookupTable2(core.StaticCallee(cc)) != nil {
+							cli.ccFor = core.StaticCallee(cc)
+							continue
+						}
 						okAcc = false
 						why = "ORed value is not a ccMap lookup"
 						continue
@@ -1022,6 +1056,70 @@ func lookupTable(p *core.Program, inits map[string]*core.InitVal, f *ssa.Functio
 	return t
 }
 
+// lookupTable2: f(word) (value, bool) written as a switch: (v_k, true) under word == "k",
+// (zero, false) otherwise.
+func lookupTable2(f *ssa.Function) *table {
+	if f == nil || f.Blocks == nil || len(f.Params) != 1 || f.Signature.Results().Len() != 2 {
+		return nil
+	}
+	if b, ok := f.Signature.Results().At(1).Type().Underlying().(*types.Basic); !ok || b.Kind() != types.Bool {
+		return nil
+	}
+	param := ssa.Value(f.Params[0])
+	t := &table{Pos: f.Pos()}
+	seen := map[string]bool{}
+	for _, ret := range core.Returns(f) {
+		if len(ret.Results) != 2 {
+			return nil
+		}
+		okC, isC := ret.Results[1].(*ssa.Const)
+		if !isC || okC.Value == nil || okC.Value.Kind() != constant.Bool {
+			return nil
+		}
+		known := constant.BoolVal(okC.Value)
+		var key *ssa.Const
+		nEq := 0
+		for _, gd := range core.Guards(ret.Block()) {
+			rel, ok := core.AsRel(gd)
+			if !ok || rel.Op != token.EQL {
+				continue
+			}
+			x, y := rel.X, rel.Y
+			if y == param {
+				x, y = y, x
+			}
+			if x != param {
+				continue
+			}
+			c, isK := y.(*ssa.Const)
+			if !isK {
+				return nil
+			}
+			key = c
+			nEq++
+		}
+		switch {
+		case nEq == 0:
+			if known || !isZeroValueConst(ret.Results[0]) {
+				return nil
+			}
+		case nEq == 1 && known:
+			k, _ := core.ConstString(key)
+			if seen[k] {
+				return nil
+			}
+			seen[k] = true
+			t.Map = append(t.Map, core.MapEntry{Key: key, Value: ret.Results[0], Pos: ret.Pos()})
+		default:
+			return nil
+		}
+	}
+	if len(t.Map) == 0 {
+		return nil
+	}
+	return t
+}
+
 // isMapLookupOf: f(value) returns table[value].
 func isMapLookupOf(f *ssa.Function, table string) bool {
 	if f == nil || len(f.Params) != 1 {
@@ -1049,7 +1147,79 @@ func isNoReturnCall(c ssa.CallInstruction) bool {
 	case "os.Exit", "log.Fatal", "log.Fatalf", "log.Fatalln", "log.Panic", "log.Panicf", "log.Panicln":
 		return true
 	}
+	if f := core.StaticCallee(c); f != nil && f.Blocks != nil && f.Pkg != nil && strings.HasPrefix(f.Pkg.Pkg.Path(), core.ModulePath) {
+		_, never := helperExit(f, 0)
+		return never
+	}
 	return false
+}
+
+// helperExit: a module function none of whose paths returns (every path ends in
+// os.Exit/log.Fatal or another such helper), e.g. `func exitWithUsage() { printUsage(); os.Exit(2) }`;
+// status is the exit status when it is the same constant on every path, else -1.
+func helperExit(f *ssa.Function, depth int) (status int64, never bool) {
+	if depth > 3 || f == nil || len(f.Blocks) == 0 {
+		return -1, false
+	}
+	seen := map[*ssa.BasicBlock]bool{}
+	status = -2
+	never = true
+	var walk func(b *ssa.BasicBlock)
+	walk = func(b *ssa.BasicBlock) {
+		if seen[b] || !never {
+			return
+		}
+		seen[b] = true
+		for _, in := range b.Instrs {
+			switch x := in.(type) {
+			case ssa.CallInstruction:
+				k := int64(-3)
+				switch n := core.CallName(x); {
+				case n == "os.Exit":
+					k = -1
+					if c, isC := core.ConstInt(x.Common().Args[0]); isC {
+						k = c
+					}
+				case strings.HasPrefix(n, "log.Fatal"):
+					k = 1
+				case strings.HasPrefix(n, "log.Panic"):
+					k = 2
+				default:
+					if g := core.StaticCallee(x); g != nil && g != f && g.Blocks != nil && g.Pkg != nil && strings.HasPrefix(g.Pkg.Pkg.Path(), core.ModulePath) {
+						if s2, nv := helperExit(g, depth+1); nv {
+							k = s2
+						}
+					}
+				}
+				if k != -3 {
+					if status == -2 {
+						status = k
+					} else if status != k {
+						status = -1
+					}
+					return // nothing after it runs
+				}
+			case *ssa.Return:
+				never = false
+				return
+			case *ssa.Panic:
+				if status == -2 {
+					status = 2
+				} else if status != 2 {
+					status = -1
+				}
+				return
+			}
+		}
+		for _, sb := range b.Succs {
+			walk(sb)
+		}
+	}
+	walk(f.Blocks[0])
+	if status == -2 {
+		status = -1
+	}
+	return status, never
 }
 
 // stdoutCall classifies a call that writes to standard output directly.
@@ -1239,7 +1409,13 @@ func checkMainCFG(p *core.Program, r *core.Report) {
 								}
 							}
 							if usesPwd {
-								r.Check(len(okB.Preds) == 1 && okB.Dominates(wb), "R17.4", name, "password is printed only on the err == nil edge", p.InstrPos(wc), "")
+								livePreds := 0
+								for _, pb := range okB.Preds {
+									if !blockExits(pb) {
+										livePreds++
+									}
+								}
+								r.Check(livePreds == 1 && (okB == wb || okB.Dominates(wb)), "R17.4", name, "password is printed only on the err == nil edge", p.InstrPos(wc), "")
 							}
 						}
 					}
@@ -1431,6 +1607,11 @@ func exitStatus(b *ssa.BasicBlock, returnsStatus bool) (int64, bool) {
 				return -1, true
 			case strings.HasPrefix(n, "log.Fatal"):
 				return 1, true
+			}
+			if f := core.StaticCallee(x); f != nil && f.Blocks != nil {
+				if k, never := helperExit(f, 0); never {
+					return k, true
+				}
 			}
 			return -1, true
 		case *ssa.Panic:
